@@ -348,11 +348,24 @@ func runC12(cfg *vc.Config, rep *vc.Report) {
 			if harness.used > 300 {
 				harness = newCmdHarness()
 			}
-			co := harness.run(cs.Script, cs.Vars)
+			// the request runs beside a watchdog: a request that never returns (e.g. behind a mutex a crashed request left
+			// locked) must not take the monitor down with it
+			hh := harness
+			done := make(chan realOutcome, 1)
+			go func() { done <- hh.run(cs.Script, cs.Vars) }()
+			var co realOutcome
+			select {
+			case co = <-done:
+			case <-time.After(30 * time.Second):
+				co = realOutcome{Class: "hang"}
+				rep.Violate("commander:request-never-returns", "a request to the Commander did not return within 30 s (the engine of this harness instance is abandoned)", i, cs)
+				harness = newCmdHarness()
+			}
 			rep.Inc("commander_requests")
 			rep.Inc("commander_" + co.Class)
 			if co.Class == "panic" {
 				rep.Violate(co.PanicSig, co.Err+"\n"+trimStack(co.Stack), i, cs)
+				harness = newCmdHarness() // a crashed request may have left the engine in any state
 			}
 		}
 		rep.Inc("outcome_" + o.Class)
